@@ -519,6 +519,11 @@ class ExprMixin:
             self.err(n, 'record of field %s unknown' % n.get('name'))
         L.need_record(prec)
         fname, ft = self.field_of(prec, mid)
+        hooks = L.opts.get('access_hooks') or ()
+        if prec.cname in hooks and not is_ref(ft) and (n.get('isArrow') or be.ptr is not None):
+            # guarded access: every load/store the code makes through this record type goes through a hook macro
+            pp = be.s if n.get('isArrow') else be.ptr
+            return E('FRGV_ACC(%s, %s)' % (pp, fname))
         if n.get('isArrow'):
             s = '%s->%s' % (self.paren(be.s), fname)
         else:
@@ -777,7 +782,13 @@ class ExprMixin:
             return e
         if ck in ('ConstructorConversion', 'UserDefinedConversion'):
             return self.expr(c)
-        if ck in ('IntegralCast', 'BitCast', 'IntegralToPointer', 'PointerToIntegral', 'IntegralToFloating',
+        if ck == 'PointerToIntegral':
+            e = self.expr(c)
+            return E('((%s)FRGV_P2I(%s))' % (cdecl(t), e.s))
+        if ck == 'IntegralToPointer':
+            e = self.expr(c)
+            return E('((%s)FRGV_I2P(%s))' % (cdecl(t), e.s))
+        if ck in ('IntegralCast', 'BitCast', 'IntegralToFloating',
                   'FloatingToIntegral', 'FloatingCast', 'BooleanToSignedIntegral', 'CPointerToObjCPointerCast',
                   'ReinterpretMemberPointer'):
             e = self.expr(c)
@@ -877,7 +888,7 @@ class ExprMixin:
         cur = tgt
         offs = []
         for br, bf in path:
-            if bf is not None:
+            if bf is not None and bf != '__b0':      # __b0 is the first member: offset 0, a plain cast (layout self-check covers it)
                 offs.append('__builtin_offsetof(struct %s, %s)' % (cur.cname, bf))
             cur = br
         if offs:
